@@ -207,6 +207,8 @@ class FnState:
         self.tryn = 0
         self.handler_exc = []  # names of saved exception-kind variables of enclosing handlers
         self.dtor_depth = 0    # > 0 while inside a scope that owns a destructible local
+        self.live_dtors = []   # (local name, destructor C name) of destructible locals in open scopes
+        self.try_marks = []    # len(live_dtors) at entry of each enclosing try
 
     def tmp(self):
         self.tmpn += 1
@@ -705,6 +707,7 @@ class Lowering:
     def s_CompoundStmt(self, n, fs):
         out = ['{']
         dtors = []
+        nlive = 0
         for c in kids(n):
             if c.get('kind') == 'DeclStmt':
                 for d in kids(c):
@@ -715,18 +718,23 @@ class Lowering:
             if dtors and self.has_jump(c):
                 raise Unsupported('scope with a destructible local (%s) contains return/break/continue/goto at %s'
                                   % (dtors[0][0], self.tu.where(c)))
-            if dtors:
-                fs.dtor_depth += 1
-                try:
-                    out += self.indent(self.stmt(c, fs), 1)
-                finally:
-                    fs.dtor_depth -= 1
-            else:
-                out += self.indent(self.stmt(c, fs), 1)
+            out += self.indent(self.stmt(c, fs), 1)
+            # locals declared by this statement become live after it
+            if c.get('kind') == 'DeclStmt':
+                for d in kids(c):
+                    if d.get('kind') == 'VarDecl':
+                        for name, dt in dtors:
+                            if name == d['name'] and (name, self.fn_cname.get(dt['mangledName'])) not in fs.live_dtors:
+                                cn = self.cname_for(dt)
+                                self.note_call(dt)
+                                fs.live_dtors.append((name, cn))
+                                nlive += 1
         for name, dt in reversed(dtors):
             cn = self.cname_for(dt)
             self.note_call(dt)
             out += self.indent(['%s(&%s); /* destructor at end of scope */' % (cn, name)], 1)
+        for _ in range(nlive):
+            fs.live_dtors.pop()
         out.append('}')
         return out
 
@@ -892,8 +900,10 @@ class Lowering:
         N = fs.tryn
         catch_l, end_l = '__catch%d' % N, '__endtry%d' % N
         fs.try_stack.append(catch_l)
+        fs.try_marks.append(len(fs.live_dtors))
         out = ['{ /* try */'] + self.indent(self.stmt(body, fs), 1)
         fs.try_stack.pop()
+        fs.try_marks.pop()
         out += self.indent(['goto %s;' % end_l, '%s: ;' % catch_l], 1)
         # inside the try block a may-raise callee might not be recognised as such on the first lowering
         # pass; the fixpoint re-lowers until stable.
@@ -1602,15 +1612,20 @@ class Lowering:
 
     def raise_exit(self, fs):
         """Statement that leaves the current point because an exception is in flight."""
-        if fs.dtor_depth > 0:
-            raise Unsupported('an exception would unwind past a destructible local in %s' % fs.cname)
+        # stack unwinding: destructors of the live destructible locals run, innermost first, down to the
+        # enclosing try (or all of them when the exception leaves the function)
+        mark = fs.try_marks[-1] if fs.try_stack else 0
+        unwind = ''.join('%s(&%s); ' % (dt, name) for name, dt in reversed(fs.live_dtors[mark:]))
+        if unwind:
+            # the destructor runs with the exception in flight; the flag is parked meanwhile
+            unwind = '{ int __inflight = verif_raised; verif_raised = 0; %sverif_raised = __inflight; } ' % unwind
         if fs.try_stack:
-            return 'goto %s;' % fs.try_stack[-1]
+            return '%sgoto %s;' % (unwind, fs.try_stack[-1])
         d = self.dummy(fs.rett)
-        return 'return%s;' % ((' ' + d) if d else '')
+        return '%sreturn%s;' % (unwind, (' ' + d) if d else '')
 
     def raise_check(self, fs):
-        return 'if (verif_raised) %s' % self.raise_exit(fs)
+        return 'if (verif_raised) { %s }' % self.raise_exit(fs)
 
     def exc_kind(self, tname):
         kinds = self.cfg.get('exception_kinds', {})
@@ -1832,6 +1847,8 @@ def lower(src, flags, cfg, roots, workdir):
     except OSError:
         pass
     lw = Lowering(tu, cfg)
+    # a root may be a callable that picks a function out of the TU (e.g. a method of an anonymous class)
+    roots = [r(tu, lw) if callable(r) else r for r in roots]
     lw.run(roots)
     lw.check_loop_contracts_used()
     return lw
